@@ -120,22 +120,22 @@ Definition enc_ref (cols : nat) (rows : list (Z * Z * Z)) : val :=
 (* ---- Python's ordering of numbers, str (code points), tuples / lists (first difference decides) ------- *)
 Fixpoint string_cmp (a b : string) : comparison :=
   match a, b with
-  | EmptyString, EmptyString => Eq
-  | EmptyString, String _ _ => Lt
-  | String _ _, EmptyString => Gt
+  | EmptyString, EmptyString => Datatypes.Eq
+  | EmptyString, String _ _ => Datatypes.Lt
+  | String _ _, EmptyString => Datatypes.Gt
   | String x a', String y b' =>
-      match N.compare (N_of_ascii x) (N_of_ascii y) with Eq => string_cmp a' b' | c => c end
+      match N.compare (N_of_ascii x) (N_of_ascii y) with Datatypes.Eq => string_cmp a' b' | c => c end
   end.
 
 Fixpoint val_cmp (a b : val) {struct a} : option comparison :=
   let fix lcmp (x y : list val) {struct x} : option comparison :=
     match x, y with
-    | [], [] => Some Eq
-    | [], _ :: _ => Some Lt
-    | _ :: _, [] => Some Gt
+    | [], [] => Some Datatypes.Eq
+    | [], _ :: _ => Some Datatypes.Lt
+    | _ :: _, [] => Some Datatypes.Gt
     | u :: x', w :: y' =>
         match val_cmp u w with
-        | Some Eq => lcmp x' y'
+        | Some Datatypes.Eq => lcmp x' y'
         | o => o
         end
     end in
@@ -156,7 +156,7 @@ Fixpoint insert_kv (e : val * val) (l : list (val * val)) : option (list (val * 
   | [] => Some [e]
   | y :: t =>
       match val_cmp (fst y) (fst e) with
-      | Some Gt => Some (e :: l)
+      | Some Datatypes.Gt => Some (e :: l)
       | Some _ => option_map (cons y) (insert_kv e t)
       | None => None
       end
@@ -301,11 +301,11 @@ Definition ext11 (f : string) (args : list val) (kw : list (string * val)) (st :
         match dec_lt t, to_long v with
         | None, _ => Stuck "C11: setitem on a non-tensor"
         | Some _, None => Exc "TypeError" st       (* can't assign a str / tuple / None to a torch.LongTensor *)
-        | Some tt, Some z =>
+        | Some t0, Some z =>
             match k with
-            | VInt i => match set1 tt i z with Some t' => Ok (enc_lt t') st | None => Stuck "C11: tok[i] = v" end
+            | VInt i => match set1 t0 i z with Some t' => Ok (enc_lt t') st | None => Stuck "C11: tok[i] = v" end
             | VTuple [VInt i; VInt j] =>
-                match set2 tt i j z with Some t' => Ok (enc_lt t') st | None => Stuck "C11: tok[i, j] = v" end
+                match set2 t0 i j z with Some t' => Ok (enc_lt t') st | None => Stuck "C11: tok[i, j] = v" end
             | _ => Stuck "C11: setitem index"
             end
         end
@@ -313,18 +313,18 @@ Definition ext11 (f : string) (args : list val) (kw : list (string * val)) (st :
     end
   else if is f "$attr.ndim" then
     match args with
-    | [t] => match dec_lt t with Some tt => Ok (VInt (tndim tt)) st | None => Stuck "C11: ndim" end
+    | [t] => match dec_lt t with Some t0 => Ok (VInt (tndim t0)) st | None => Stuck "C11: ndim" end
     | _ => Stuck "C11: ndim"
     end
   else if is f "$method.numel" then
     match args with
-    | [t] => match dec_lt t with Some tt => Ok (VInt (tnumel tt)) st | None => Stuck "C11: numel" end
+    | [t] => match dec_lt t with Some t0 => Ok (VInt (tnumel t0)) st | None => Stuck "C11: numel" end
     | _ => Stuck "C11: numel"
     end
   else if is f "$method.item" then
     match args with
     | [t] => match dec_lt t with
-             | Some tt => match titem tt with Some z => Ok (VInt z) st | None => Stuck "C11: item" end
+             | Some t0 => match titem t0 with Some z => Ok (VInt z) st | None => Stuck "C11: item" end
              | None => Stuck "C11: item"
              end
     | _ => Stuck "C11: item"
